@@ -156,6 +156,9 @@ pub struct Pipe {
     /// in-transit corruption plan: (absolute byte offset, xor mask)
     pub corrupt: Vec<(u64, u8)>,
     pub frozen: bool,
+    /// fault: shutting down the write half fails (ENOTCONN, as after a reset by the peer or a TLS
+    /// close_notify that can no longer be written); the half is closed all the same
+    pub shutdown_fails: bool,
 }
 
 pub type PipeRef = Arc<Mutex<Pipe>>;
@@ -185,6 +188,7 @@ impl Pipe {
             tap_cursor: 0,
             corrupt: Vec::new(),
             frozen: false,
+            shutdown_fails: false,
         }
     }
     fn wake_all(&mut self) {
@@ -588,6 +592,10 @@ impl AsyncWrite for SimStream {
         p.writer_closed = true;
         if let Some(w) = p.pump_waker.take() {
             w.wake();
+        }
+        if p.shutdown_fails {
+            sim::fault("shutdown-of-the-write-half-fails");
+            return Poll::Ready(Err(io::Error::new(io::ErrorKind::NotConnected, "simulated: transport endpoint is not connected")));
         }
         Poll::Ready(Ok(()))
     }
